@@ -3,7 +3,7 @@
 //! ordering effects; deliberately failing leaves and ill-typed operands are mixed in.
 
 use crate::canon::V;
-use crate::env::{Setup, FN_NAMES, UNBOUND_NAME, UNKNOWN_FN, VAR_NAMES};
+use crate::env::{Setup, FN_NAMES, SHADOW_NAMES, UNBOUND_NAME, UNKNOWN_FN, VAR_NAMES};
 use crate::prog::{AOp, Bin, Expr, Un, ALL_AOP};
 use crate::rng::Rng;
 use evalexpr::Value;
@@ -209,6 +209,25 @@ impl<'a> Gen<'a> {
         }
         let sub_budget = budget.saturating_sub(2).max(1);
         let sub_depth = depth.saturating_sub(1);
+        if self.cfg.nested_statements && self.rng.percent(10) {
+            // computed target: a string literal, a call of the name-returning sentinel, or a
+            // sub-chain ending in a string
+            let target = match self.rng.below(4) {
+                0 => Expr::Lit(Value::String(name.clone())),
+                1 | 2 => {
+                    let t = self.any_ty();
+                    let a = self.leaf(t);
+                    self.call_behaviour("n", Some(a), Ty::Str)
+                },
+                _ => Expr::Chain(vec![
+                    self.statement(2, 1),
+                    Expr::Lit(Value::String(name.clone())),
+                ]),
+            };
+            let ty = self.any_ty();
+            let rhs = self.expr(ty, sub_budget, sub_depth);
+            return Expr::AssignTo(op, Box::new(target), Box::new(rhs));
+        }
         match op {
             AOp::Assign => {
                 let ty = match bound {
@@ -386,6 +405,20 @@ impl<'a> Gen<'a> {
             let arg = self.sub(ty, b, d);
             return self.call_behaviour("f", Some(*arg), ty);
         }
+        if common < 23 && common >= 20 && self.cfg.builtins {
+            match ty {
+                Ty::Str => {
+                    let t = self.any_ty();
+                    let a = self.expr(t, b, d);
+                    return self.call("str::from", a);
+                },
+                Ty::Int | Ty::Float => {
+                    let a = self.sub(ty, b, d);
+                    return self.call("math::abs", *a);
+                },
+                _ => {},
+            }
+        }
         if common < 20 && self.cfg.builtins {
             // if(cond, x, y): both branches are evaluated
             let s = self.split(b.saturating_sub(1), 3);
@@ -549,6 +582,11 @@ pub fn gen_setup(rng: &mut Rng) -> Setup {
     let all = rng.percent(85);
     for f in FN_NAMES {
         if all || rng.percent(50) {
+            fns.push(f.to_string());
+        }
+    }
+    for f in SHADOW_NAMES {
+        if rng.percent(12) {
             fns.push(f.to_string());
         }
     }
